@@ -484,6 +484,12 @@ func (h *httpHandler) writeResponse(
 	switch ct {
 	case MimeTypeDoH:
 		buf, err = resp.Pack()
+		if l := len(buf); err == nil && l > dns.MaxMsgSize {
+			// Generally shouldn't happen, but padding is added after the
+			// truncation.  See also packWithPrefix.
+			err = fmt.Errorf("buffer too large: %d bytes", l)
+		}
+
 		w.Header().Set(httphdr.ContentType, MimeTypeDoH)
 	case MimeTypeJSON:
 		buf, err = dnsMsgToJSON(resp)
